@@ -76,10 +76,8 @@ impl ClosingOutpoints {
 
 //@fn vls-core/src/monitor.rs :: impl ClosingOutpoints :: is_all_spent props=C14,C15 optiters optclosures
     ensures r == co_all_spent(co_abs(*self)),                                                     //[C15.all-spent.every-output-of-the-node]
-//@loop 1 iter=it1
-        invariant vx_acc1 == (forall|j: int| 0 <= j < it1.index@ ==> #[trigger] self.htlc_spents@[j]),
-//@loop 2 iter=it2
-        invariant vx_acc2 == (forall|j: int| 0 <= j < it2.index@ ==> (#[trigger] self.second_level_htlc_outputs@[j]).spent),
+//@loop 1 iter=it2 kind=all
+        invariant vx_recv2@ == self.second_level_htlc_outputs@, vx_acc2 == (forall|j: int| 0 <= j < it2.index@ ==> (#[trigger] self.second_level_htlc_outputs@[j]).spent),
 //@proof before /our_output_spent && htlc_outputs_spent && second_level_htlcs_spent/
         proof {
             let sec = self.second_level_htlc_outputs@;
